@@ -22,6 +22,8 @@ func runC17(c *core.Ctx) {
 		RunWrappers(c)
 	case "logistic-regression":
 		RunLogisticRegression(c)
+	case "cloned-prototypes":
+		RunClonedPrototypes(c)
 	default:
 		panic("unknown scenario " + c.Scenario)
 	}
@@ -37,6 +39,10 @@ func runC16(c *core.Ctx) {
 		RunVectorHmm(c, true)
 	case "matrix-em-monotone":
 		RunMatrixEstimators(c, true)
+	case "vector-closed-form":
+		RunVectorEstimators(c)
+	case "cloned-prototypes":
+		RunClonedPrototypes(c)
 	default:
 		panic("unknown scenario " + c.Scenario)
 	}
@@ -57,6 +63,7 @@ func init() {
 			{Name: "matrix-estimators", Weight: 3},
 			{Name: "wrappers-batch", Weight: 2},
 			{Name: "logistic-regression", Weight: 2},
+			{Name: "cloned-prototypes", Weight: 1},
 		},
 		Run:      runC17,
 		StepUnit: "scheduling decisions of the simulated pool",
@@ -82,6 +89,8 @@ func init() {
 			{Name: "mixture-em-monotone", Weight: 3},
 			{Name: "hmm-monotone", Weight: 3},
 			{Name: "matrix-em-monotone", Weight: 2},
+			{Name: "vector-closed-form", Weight: 2},
+			{Name: "cloned-prototypes", Weight: 1},
 		},
 		Run:      runC16,
 		StepUnit: "scheduling decisions of the simulated pool",
